@@ -49,7 +49,7 @@ def make_state(en, enc: bytes, st_seed: int, variant: str) -> Dict[str, Any]:
     op = en.opcode_of(enc)
     if variant == "wide" and op not in en.BCD_OPS:
         # boundary values in every register, boundary bytes in the data cells
-        for r, top in (("BA", 0xFFFF), ("I", 0xFFFF), ("X", 0xFFFFF), ("Y", 0xFFFFF)):
+        for r, top in (("BA", 0xFFFF), ("I", 0xFFFF), ("X", 0xFFFFF), ("Y", 0xFFFFF), ("U", 0xFFFFF), ("S", 0xFFFFF)):
             if r == "I" and op in en.COUNTED_OPS:
                 continue
             st["regs"][r] = rnd.choice([0, 1, 0xFF, 0x100, 0xFFFF, 0x10000, 0xFFFFF, 0x7FFFF, 0x80000, 0xFFFE, 0x8000]) & top
